@@ -36,6 +36,12 @@ Step ==
                                   ELSE <<F(IF op[3] = "ref" THEN "ActivateByReference" ELSE "ActivateByName",
                                            IF op[3] = "ref" /\ ResolveKey(mech, T.key) # T.key THEN "mech:" \o ViolKind(mech, T.key) ELSE S.outcome)>>)
                               \o (IF S.outcome = "ok" THEN Recv(ex2) ELSE <<>>)
+       [] op[1] = "badact" ->
+            \* a probe on the same function naming a variable it does not have: refused with a selector error; the function is
+            \* tooled and untooled on the way (one ActOp and one DeactOp of the registry mechanism)
+            /\ UNCHANGED <<active, expect, owner>>
+            /\ mech' = DeactOp(ActOp(mech, T.key, "tree"), T.key)
+            /\ fails' = fails \o (IF S.outcome = "refused:SelectorError" THEN <<>> ELSE <<F("RefusedActivation", S.outcome)>>) \o Recv(expect)
        [] op[1] = "nact" ->
             /\ UNCHANGED <<active, expect>>
             /\ mech' = IF S.outcome = "ok" THEN ActOp(mech, op[3], "tree") ELSE mech
